@@ -389,6 +389,42 @@ def judge_direct(run, exp, viol):
             cnt['REF_JOIN_UNDECIDED_AT_COMMAND'] = \
                 cnt.get('REF_JOIN_UNDECIDED_AT_COMMAND', 0) + 1
             return
+        # The same when the join is *satisfied* in the very step in which a
+        # later command of the same transition list ends the workflow
+        # ("[j, fail]"): the engine starts joins from a separate job, which
+        # finds the workflow ended; the reference starts the join because it
+        # precedes the command in the list.  The statement does not order a
+        # join's start and a command of the same list either.  Tolerated:
+        # the only unexpected rows are WAITING joins, and everything missing
+        # is such a join or lies downstream of one.
+        if 'command' in (run.world.case.get('features') or []) and \
+                extra and all(st == 'WAITING' for _, st in extra) and \
+                root['state'] in ('ERROR', 'SUCCESS'):
+            wfd = run.world.wfdefs.get(root['workflow_name']) or {}
+            tdefs = wfd.get('tasks', {})
+            joins = set(n for n, _ in extra)
+            if all(lang.join_cardinality(wfd, n) is not None
+                   for n in joins):
+                down = set(joins)
+                todo = list(joins)
+                while todo:
+                    n = todo.pop()
+                    for cl in ('on-success', 'on-error', 'on-complete'):
+                        c_ = (tdefs.get(n) or {}).get(cl) or []
+                        if isinstance(c_, dict):
+                            c_ = c_.get('next') or []
+                        if isinstance(c_, str):
+                            c_ = [c_]
+                        for e in c_:
+                            t_ = e if isinstance(e, str) else list(e)[0]
+                            t_ = t_.split()[0]
+                            if t_ in tdefs and t_ not in down:
+                                down.add(t_)
+                                todo.append(t_)
+                if all(n in down for n, _ in missing):
+                    cnt['REF_JOIN_UNDECIDED_AT_COMMAND'] = \
+                        cnt.get('REF_JOIN_UNDECIDED_AT_COMMAND', 0) + 1
+                    return
         viol('wrong-tasks', 'task executions differ from the prescribed '
              'ones: unexpected %s, missing %s' % (extra, missing))
         return
